@@ -289,6 +289,10 @@ func ruleLock8(c *Ctx) {
 			c.Ok(key, c.Pos(o.call), "origin: decided from the statement's own FOR UPDATE context (SelectQuery.IsForUpdate)")
 			continue
 		}
+		if b, isConst := core.ConstBool(o.arg); isConst && !b && lock8TextBody(p, o.k) {
+			c.Ok(key, c.Pos(o.call), "origin: nothing is asked by the caller, and "+p.FnRef(o.k)+" itself decides from the statement's own FOR UPDATE context (it makes its flag true under IsForUpdate of the query it is given before any use)")
+			continue
+		}
 		if w := onTheWay(o.fn, 0, map[*ssa.Function]bool{}); w != nil {
 			c.Bad(key, c.Pos(o.call), fmt.Sprintf("this function has no forUpdate parameter and passes %s, yet it is called on behalf of %s, which has one: the caller's FOR UPDATE is dropped here, the tables below are loaded without a lock and with FileInfo.ForUpdate=false (a later update reloads them and the transaction sees foreign data)", lock8ValueLabel(o.arg), p.FnRef(w)))
 			continue
@@ -319,4 +323,28 @@ func lock8ValueLabel(v ssa.Value) string {
 		return fmt.Sprintf("the constant %v", b)
 	}
 	return "the value " + v.Name()
+}
+
+// lock8TextBody: k has a forUpdate parameter that it uses only through `if query.IsForUpdate() { forUpdate = true }`:
+// every use of the raw parameter is an edge of a φ that is the parameter or the constant true under the true
+// branch of IsForUpdate of a query value the function does not write to (lock9OwnOrText).
+func lock8TextBody(p *core.Prog, k *ssa.Function) bool {
+	own := lock8OwnParam(k)
+	if own == nil || own.Referrers() == nil {
+		return false
+	}
+	n := 0
+	for _, r := range *own.Referrers() {
+		switch x := r.(type) {
+		case *ssa.DebugRef:
+		case *ssa.Phi:
+			if !lock9OwnOrText(p, x, own) {
+				return false
+			}
+			n++
+		default:
+			return false
+		}
+	}
+	return n > 0
 }
